@@ -97,7 +97,7 @@ def malformed(rng):
 
 
 def generate(ctx):
-    n = 400 if ctx.tier == "quick" else 6000
+    n = 400 if ctx.tier == "quick" else 20000
     rng = ctx.rng
     cases = []
     for i in range(n):
